@@ -60,7 +60,11 @@ pub fn workbook(fmt: &str) -> Vec<u8> {
                 items.push(xlsb::BItem::Cell { row: r, col: 2, style: 0, val: xlsb::BVal::FmlaNum((r * 10) as f64, vec![0x44, 0, 0, 0, 0, 1, 0xC0]) });
                 items.push(xlsb::BItem::Cell { row: r, col: 3, style: 1, val: xlsb::BVal::Real(44197.0) });
             }
-            let b = xlsb::BBook { sheets: vec![xlsb::BSheet::new(S[0], items), xlsb::BSheet::new(S[1], vec![xlsb::BItem::Cell { row: 2, col: 2, style: 0, val: xlsb::BVal::St("two".into()) }]), xlsb::BSheet::new(S[2], vec![xlsb::BItem::Cell { row: 0, col: 0, style: 0, val: xlsb::BVal::FmlaStr("r".into(), vec![0x17, 1, 0, b'r', 0]) }])],
+            // a chart sheet in second place (a sheet that cannot be read as cells before sheets that can) and a macro sheet, which
+            // holds cells like a worksheet
+            let mut chart = xlsb::BSheet::new("Chart1", vec![]); chart.dir = "chartsheets";
+            let mut mac = xlsb::BSheet::new("Macro1", vec![xlsb::BItem::Cell { row: 1, col: 0, style: 0, val: xlsb::BVal::Real(7.0) }]); mac.dir = "macrosheets";
+            let b = xlsb::BBook { sheets: vec![xlsb::BSheet::new(S[0], items), chart, xlsb::BSheet::new(S[1], vec![xlsb::BItem::Cell { row: 2, col: 2, style: 0, val: xlsb::BVal::St("two".into()) }]), xlsb::BSheet::new(S[2], vec![xlsb::BItem::Cell { row: 0, col: 0, style: 0, val: xlsb::BVal::FmlaStr("r".into(), vec![0x17, 1, 0, b'r', 0]) }]), mac],
                 sst: vec!["alpha".into(), "beta".into()], xfs: vec![0, 14], vba: Some(cfb::write(&project_entries(&project(), false, 0), &cfb::Layout::default())), ..Default::default() };
             xlsb::write(&b, Method::Deflated)
         }
